@@ -51,6 +51,8 @@ struct ItemSpec {
     closures: Vec<(usize, Vec<String>)>, // n-th closure: text spliced between `|..|` and body
     closure_params: Vec<(usize, Vec<String>)>, // n-th closure: explicit parameter types
     drop_derive: Vec<String>,
+    forpat: bool,
+    fmt_nonempty: bool,
     viter: bool,                         // apply R5 (iterator entry) to this item
     attrs: Vec<String>,                  // extra attributes (e.g. verifier::rlimit)
     replace_macros: Vec<(String, String)>, // R1b: statement macro -> nothing (named)
@@ -320,6 +322,8 @@ fn parse_template(text: &str) -> Vec<Result<String, ItemSpec>> {
                         "params" => { if let Some(f) = spec.fragment.as_mut() { f.params = arg.to_string(); } else { die("//@params outside //@frag"); } }
                         "ret" => { if let Some(f) = spec.fragment.as_mut() { f.ret = arg.to_string(); } else { spec.ret = Some(arg.to_string()); } }
                         "viter" => spec.viter = true,
+                        "forpat" => spec.forpat = true,
+                        "fmt-nonempty" => spec.fmt_nonempty = true,
                         "drop-derive" => spec.drop_derive.push(arg.to_string()),
                         "attr" => spec.attrs.push(arg.to_string()),
                         "loop" => {
@@ -859,6 +863,10 @@ fn fn_edits(
             t.push('\n');
         }
         edits.push(Edit { start: body_start, end: body_start, text: t, kind: format!("loop:{}", anchor), prio: 5 });
+        // a `for` loop under contract gets its ghost iterator named `it` (ghost-only, R4)
+        if let Some((_, es)) = c.for_exprs.iter().find(|(ls, _)| *ls == hits[0].0) {
+            edits.push(Edit { start: *es, end: *es, text: "it: ".into(), kind: "R4 for-iterator name".into(), prio: 0 });
+        }
     }
     for (is_before, list) in [(true, &spec.befores), (false, &spec.afters)] {
         for (anchor, lines) in list {
@@ -954,6 +962,12 @@ fn fn_edits(
     }
     if spec.viter {
         rewrite::viter_edits(block, src, edits, rewrites);
+    }
+    if spec.forpat {
+        rewrite::forpat_edits(block, src, edits, rewrites);
+    }
+    if spec.fmt_nonempty {
+        rewrite::fmt_edits(block, src, edits, rewrites);
     }
 }
 
